@@ -5,10 +5,14 @@ import Glom.Model.C04Env
 
   Property theorems only; helper lemmas are in `Glom/Lemmas/C04.lean`.
   Every theorem is for ALL exception classes (any MRO, any constructor
-  `ctor : Args → Option Args`, truthy or falsy instances), all `.args`, all
-  `(default, skip_exc, glom_debug)` combinations, all specs / nesting depths,
-  and all facts values that satisfy the decidable predicate `WF`;
+  `ctor : Args → Option Args`, truthy or falsy instances, any `__reduce__`/`__copy__` kind),
+  all `.args`, all `(default, skip_exc, glom_debug)` combinations, all specs / nesting
+  depths, and all facts values that satisfy the decidable predicate `WF`;
   `c04_facts_wf` discharges `WF` for the facts regenerated from /repo on this run.
+
+  Hypothesis `Tame F c` (forced, see the three counter-examples on the current facts at the end):
+  the `type(…)` call of `GlomError.wrap` succeeds or is guarded, attribute assignment on a
+  GlomError instance succeeds or is guarded, a user `__copy__` keeps the class.
 -/
 namespace Glom.Props.C04
 open Glom Glom.C04
@@ -16,7 +20,9 @@ open Glom Glom.C04
 /-- **Facts obligation**: `glom()` in /repo has the documented keyword defaulting, the two
     nested `try` blocks in the modelled order, an outer `except Exception`, both guards
     around `copy.copy` and inside `GlomError.wrap`, `if err is not None`, a
-    `TypeMatchError.__copy__` that keeps the class, `_glom` re-raising unchanged. -/
+    `TypeMatchError.__copy__` that keeps the class, `_glom` re-raising unchanged, the
+    documented `except` clauses around `iterate(target)`, `T[…]`, `T.x` and path access,
+    `Spec.glom` / `Glommer.glom` handing every keyword on. -/
 theorem c04_facts_wf : WF genFacts = true := by decide +kernel
 
 /-- **Facts obligation** (`c04_internal_subtypes`): every `raise X(…)` in glom's own modules
@@ -29,45 +35,58 @@ theorem c04_internal_subtypes :
       Generated.raisedBuiltinStoreAll = true := by decide +kernel
 
 /-- Whatever leaves `glom()` is an instance of the class of the exception originally raised. -/
-theorem c04_class (F : Facts) (hwf : WF F = true) (s : Settings) (e out : ExcObj)
+theorem c04_class (F : Facts) (hwf : WF F = true) (s : Settings) (e out : ExcObj) (ht : Tame F e.cls)
     (h : glomTop F s (.exc e) = .exc out) : isInst out e.cls.name = true := by
   have w := WF_parts hwf
   rcases glomTop_cases w s e with ⟨_, d, _, hd⟩ | ⟨_, ho⟩
   · rw [hd] at h; cases h
-  · obtain ⟨out', h', hf⟩ := outer_faithful w s e
+  · obtain ⟨out', h', hf⟩ := outer_faithful w s e ht
     rw [ho, h'] at h; cases h; exact hf.1
 
 /-- … with the same args. -/
-theorem c04_args (F : Facts) (hwf : WF F = true) (s : Settings) (e out : ExcObj)
+theorem c04_args (F : Facts) (hwf : WF F = true) (s : Settings) (e out : ExcObj) (ht : Tame F e.cls)
     (h : glomTop F s (.exc e) = .exc out) : out.args = e.args := by
   have w := WF_parts hwf
   rcases glomTop_cases w s e with ⟨_, d, _, hd⟩ | ⟨_, ho⟩
   · rw [hd] at h; cases h
-  · obtain ⟨out', h', hf⟩ := outer_faithful w s e
+  · obtain ⟨out', h', hf⟩ := outer_faithful w s e ht
     rw [ho, h'] at h; cases h; exact hf.2
 
-/-- Whenever the class is an `Exception` subclass that can be rebuilt from its args (or is
-    a GlomError already) the raised object is also a GlomError (`glom_debug` off). -/
-theorem c04_glomerror (F : Facts) (hwf : WF F = true) (s : Settings) (e out : ExcObj)
+/-- **Callers' except clauses keep working**: what leaves `glom()` is an instance of EVERY class
+    the original exception was an instance of. -/
+theorem c04_except_clauses (F : Facts) (hwf : WF F = true) (s : Settings) (e out : ExcObj)
+    (ht : Tame F e.cls) (hok : ClassOK e.cls) (h : glomTop F s (.exc e) = .exc out) :
+    ∀ c, isInst e c = true → isInst out c = true := by
+  have w := WF_parts hwf
+  rcases glomTop_cases w s e with ⟨_, d, _, hd⟩ | ⟨_, ho⟩
+  · rw [hd] at h; cases h
+  · obtain ⟨out', h', hr⟩ := outer_raised w s e ht
+    rw [ho, h'] at h; cases h; exact hr.sup hok
+
+/-- Whenever the class is an `Exception` subclass that can be rebuilt from its args by a class
+    that can be extended (or is a GlomError already) the raised object is also a GlomError
+    (`glom_debug` off). -/
+theorem c04_glomerror (F : Facts) (hwf : WF F = true) (s : Settings) (e out : ExcObj) (ht : Tame F e.cls)
     (hdebug : s.debug.getD false = false)
     (hexc : isInst e "Exception" = true)
-    (hre : (isInst e "GlomError" || rebuildable e) = true)
+    (hre : isInst e "GlomError" = true ∨
+      (rebuildable e = true ∧ extensible e = true ∧ (wrapClass e.cls).isSome = true))
     (h : glomTop F s (.exc e) = .exc out) : isInst out "GlomError" = true := by
   have w := WF_parts hwf
   rcases glomTop_cases w s e with ⟨_, d, _, hd⟩ | ⟨_, ho⟩
   · rw [hd] at h; cases h
   · have hd : effDebug F s = false := by rw [effDebug_eq w]; exact hdebug
-    obtain ⟨out', h', _, hg⟩ := handler_nodebug w s e hd
+    obtain ⟨out', h', hg⟩ := handler_glomerror w s e ht hd hre
     have hc : matchesAny e F.outerCatch = true := by simp [w.outerCatch, matchesAny, hexc]
     rw [ho] at h
     unfold outer at h
     rw [if_pos hc, h'] at h
-    cases h; exact hg hre
+    cases h; exact hg
 
 /-- The default is returned exactly for the errors the caller selected (they match
     `skip_exc` — by default GlomError — AT THEIR ORIGIN, before any wrapping), and what is
     returned is the default object itself (the object passed as `default=`, else `None`). -/
-theorem c04_selective (F : Facts) (hwf : WF F = true) (s : Settings) (e : ExcObj) :
+theorem c04_selective (F : Facts) (hwf : WF F = true) (s : Settings) (e : ExcObj) (ht : Tame F e.cls) :
     ((∃ d, glomTop F s (.exc e) = .dflt d) ↔ selected s e = true) ∧
     (∀ d, glomTop F s (.exc e) = .dflt d → refDefault s = some d) ∧
     (glomTop F s (.exc e) ≠ .value) := by
@@ -76,15 +95,15 @@ theorem c04_selective (F : Facts) (hwf : WF F = true) (s : Settings) (e : ExcObj
   · refine ⟨⟨fun _ => hs, fun _ => ⟨d, hd⟩⟩, ?_, ?_⟩
     · intro d' h'; rw [hd] at h'; cases h'; exact hr
     · rw [hd]; intro h'; cases h'
-  · obtain ⟨out, h', _⟩ := outer_faithful w s e
+  · obtain ⟨out, h', _⟩ := outer_faithful w s e ht
     refine ⟨⟨?_, ?_⟩, ?_, ?_⟩
     · rintro ⟨d, hd⟩; rw [ho, h'] at hd; cases hd
     · intro h; rw [hs] at h; cases h
     · intro d hd; rw [ho, h'] at hd; cases hd
     · rw [ho, h']; intro h; cases h
 
-/-- `glom_debug=True` propagates the original exception OBJECT (unless the caller
-    selected it for replacement by the default). -/
+/-- `glom_debug=True` propagates the original exception OBJECT — with its `__cause__`, `__context__`
+    and everything else — (unless the caller selected it for replacement by the default). -/
 theorem c04_debug_identity (F : Facts) (hwf : WF F = true) (s : Settings) (e : ExcObj)
     (hdebug : s.debug = some true) (hsel : selected s e = false) :
     glomTop F s (.exc e) = .exc e := by
@@ -96,8 +115,8 @@ theorem c04_debug_identity (F : Facts) (hwf : WF F = true) (s : Settings) (e : E
     · exact handler_debug s e (by simp [effDebug, hdebug])
     · rfl
 
-/-- `BaseException`-only classes (KeyboardInterrupt, SystemExit, GeneratorExit and their
-    subclasses) pass untouched: the very object, whatever `glom_debug` says. -/
+/-- `BaseException`-only classes (KeyboardInterrupt, SystemExit, GeneratorExit, BaseExceptionGroup and
+    their subclasses) pass untouched: the very object, whatever `glom_debug` says. -/
 theorem c04_baseexception_untouched (F : Facts) (hwf : WF F = true) (s : Settings) (e : ExcObj)
     (hbase : isInst e "Exception" = false) (hsel : selected s e = false) :
     glomTop F s (.exc e) = .exc e := by
@@ -107,55 +126,256 @@ theorem c04_baseexception_untouched (F : Facts) (hwf : WF F = true) (s : Setting
   · rw [ho]; unfold outer
     simp [w.outerCatch, matchesAny, hbase]
 
+/-- **The original stays reachable** (`__cause__` / `__context__` / `__traceback__` of the original):
+    what leaves `glom()` is the original object itself — its chain untouched — or carries the
+    original as `_GlomError__wrapped`. -/
+theorem c04_chain (F : Facts) (hwf : WF F = true) (s : Settings) (e out : ExcObj) (ht : Tame F e.cls)
+    (h : glomTop F s (.exc e) = .exc out) : out = e ∨ out.wrapped = some e.id := by
+  have w := WF_parts hwf
+  rcases glomTop_cases w s e with ⟨_, d, _, hd⟩ | ⟨_, ho⟩
+  · rw [hd] at h; cases h
+  · obtain ⟨out', h', hr⟩ := outer_raised w s e ht
+    rw [ho, h'] at h; cases h; exact hr.reach
+
+/-- … and when a NEW object leaves in place of a foreign exception (the wrapper), it was raised outside
+    every `except` block: its own `__cause__` and `__context__` are empty, the original — with its chain —
+    is its `_GlomError__wrapped`. -/
+theorem c04_wrapper_fresh_chain (F : Facts) (hwf : WF F = true) (s : Settings) (e out : ExcObj) (ht : Tame F e.cls)
+    (hg : isInst e "GlomError" = false) (hne : out ≠ e) (h : glomTop F s (.exc e) = .exc out) :
+    out.cause = none ∧ out.context = none ∧ out.wrapped = some e.id ∧
+      ∃ wc, wrapClass e.cls = some wc ∧ out.cls = wc := by
+  have w := WF_parts hwf
+  rcases glomTop_cases w s e with ⟨_, d, _, hd⟩ | ⟨_, ho⟩
+  · rw [hd] at h; cases h
+  · obtain ⟨out', h', hr⟩ := outer_raised w s e ht
+    rw [ho, h'] at h; cases h
+    cases hr with
+    | orig h => exact absurd h hne
+    | copy _ _ _ hge => rw [hg] at hge; cases hge
+    | wrapper wc hwc hc _ hw hcc _ => exact ⟨hcc.1, hcc.2, hw, wc, hwc, hc⟩
+
+/-- **What was selected at its origin stays selected**: the object that leaves a `glom()` call matches
+    every `skip_exc` the original matched (an enclosing `glom(default=…)` or `Coalesce` with the same
+    `skip_exc` still replaces it); the only classes it is an instance of in addition are the wrapper
+    class and GlomError. -/
+theorem c04_selected_monotone (F : Facts) (hwf : WF F = true) (s s' : Settings) (e out : ExcObj)
+    (ht : Tame F e.cls) (hok : ClassOK e.cls) (h : glomTop F s (.exc e) = .exc out)
+    (hsel : selected s' e = true) : selected s' out = true := by
+  have hsup := c04_except_clauses F hwf s e out ht hok h
+  simp only [selected, Bool.and_eq_true] at hsel ⊢
+  exact ⟨hsel.1, matchesAny_mono hsup _ hsel.2⟩
+
 /-- Nothing raised: the computed value is returned, never the default. -/
 theorem c04_value_passthrough (F : Facts) (s : Settings) : glomTop F s .val = .value := rfl
+
+/-! ### the class `GlomError.wrap` creates: C3 linearisation -/
+
+/-- **Soundness of the modelled C3 merge**, for arbitrary hierarchies: every class of every
+    merged list — hence every base of every base — is in the MRO that results. -/
+theorem c04_c3_sound (n : Nat) (ls : List (List String)) (r : List String) (h : c3merge n ls = some r) :
+    ∀ l ∈ ls, ∀ x ∈ l, x ∈ r := c3merge_sound n ls r h
+
+/-- **The modelled C3 merge respects every order it is given**: the MRO of each base and the order
+    of the bases themselves are subsequences of the resulting MRO (local precedence, monotonicity). -/
+theorem c04_c3_order (n : Nat) (ls : List (List String)) (r : List String) (h : c3merge n ls = some r) :
+    ∀ l ∈ ls, l.Sublist r := c3merge_order n ls r h
+
+/-- Whenever Python can create the wrapper class, the original class, GlomError, and every
+    class the original class derives from are in its MRO: both `except GlomError` and
+    `except <any base of the original>` catch its instances. -/
+theorem c04_wrapper_catchable (c wc : ClassInfo) (h : wrapClass c = some wc) (hok : ClassOK c) :
+    wc.mro.contains c.name = true ∧ wc.mro.contains "GlomError" = true ∧ ∀ x ∈ c.mro, x ∈ wc.mro :=
+  ⟨wrapClass_has_orig h, wrapClass_has_glom h, wrapClass_sup h hok⟩
+
+/-- **The wrapper class exists** for every consistent MRO of an `Exception` subclass that is not
+    a GlomError (`c`, then classes that are none of GlomError's bases, `Exception`, then a rest
+    that has `BaseException` before `object`): C3 puts GlomError directly before `Exception`. -/
+theorem c04_wrapper_mro (c : String) (pre rest : List String)
+    (hnd : (c :: pre ++ "Exception" :: rest).Nodup)
+    (hfree : ∀ x ∈ c :: pre, Free x) (hg : "GlomError" ∉ rest)
+    (hsub : ["BaseException", "object"].Sublist rest) :
+    wrapMro (c :: pre ++ "Exception" :: rest) = some (c :: pre ++ "GlomError" :: "Exception" :: rest) ∧
+    insertGlom (c :: pre ++ "Exception" :: rest) = c :: pre ++ "GlomError" :: "Exception" :: rest :=
+  ⟨wrapMro_exc c pre rest hnd hfree hg hsub, by
+    have := insertGlom_free (c :: pre) rest hfree
+    simpa using this⟩
+
+/-- **Wrap of a wrapped error**: for a class that already has GlomError's MRO in its own (a wrapper
+    class, a user GlomError subclass) the merge adds nothing — `GlomError.wrap(w)` of a wrapped `w`
+    is an instance of a class whose MRO is the new name followed by `w`'s MRO. -/
+theorem c04_wrap_of_wrapped (c : String) (t : List String)
+    (hnd : (c :: t).Nodup) (hc : c ≠ "GlomError") (hsub : glomMro.Sublist t) :
+    wrapMro (c :: t) = some (c :: t) := wrapMro_of_glomerror c t hnd hc hsub
+
+/-- **Re-wrapping is stable**: an error that is a GlomError already (a wrapper instance that an inner
+    `glom()` raised, one of glom's own errors, a user subclass) leaves an outer `glom()` with the SAME
+    class and args, not wrapped a second time. -/
+theorem c04_rewrap_stable (F : Facts) (hwf : WF F = true) (s : Settings) (e out : ExcObj) (ht : Tame F e.cls)
+    (hg : isInst e "GlomError" = true) (h : glomTop F s (.exc e) = .exc out) :
+    out.cls = e.cls ∧ out.args = e.args := by
+  have w := WF_parts hwf
+  rcases glomTop_cases w s e with ⟨_, d, _, hd⟩ | ⟨_, ho⟩
+  · rw [hd] at h; cases h
+  · rw [ho] at h
+    unfold outer at h
+    split at h
+    · cases hdb : effDebug F s with
+      | true => rw [handler_debug s e hdb] at h; cases h; exact ⟨rfl, rfl⟩
+      | false =>
+        unfold handler at h
+        rw [hdb, hg] at h
+        simp only [Bool.false_eq_true, if_false, if_true] at h
+        obtain ⟨o, ho', hr, hc⟩ := glomErr_finish w e ht hg
+        rw [ho'] at h; cases h; exact ⟨hc, hr.args⟩
+    · cases h; exact ⟨rfl, rfl⟩
+
+/-- **Wrapping is idempotent**: what a `glom()` call (`glom_debug` off) raised leaves a second,
+    enclosing `glom()` call with the same class and args. -/
+theorem c04_wrap_idempotent (F : Facts) (hwf : WF F = true) (s₁ s₂ : Settings) (e m out : ExcObj)
+    (ht : Tame F e.cls) (hd₁ : s₁.debug.getD false = false)
+    (h₁ : glomTop F s₁ (.exc e) = .exc m) (h₂ : glomTop F s₂ (.exc m) = .exc out) :
+    out.cls = m.cls ∧ out.args = m.args := by
+  have w := WF_parts hwf
+  have hm : Raised e m := by
+    rcases glomTop_cases w s₁ e with ⟨_, d, _, hd⟩ | ⟨_, ho⟩
+    · rw [hd] at h₁; cases h₁
+    · obtain ⟨o, ho', hr⟩ := outer_raised w s₁ e ht
+      rw [ho, ho'] at h₁; cases h₁; exact hr
+  by_cases hg : isInst m "GlomError" = true
+  · exact c04_rewrap_stable F hwf s₂ m out (hm.tame ht) hg h₂
+  · -- not a GlomError: the first call re-raised the original, and so does the second
+    have hme : m = e := hm.not_glom (by simpa using hg)
+    subst hme
+    rcases glomTop_cases w s₂ m with ⟨_, d, _, hd⟩ | ⟨_, ho⟩
+    · rw [hd] at h₂; cases h₂
+    · rw [ho] at h₂
+      unfold outer at h₂
+      split at h₂
+      · rename_i hc
+        cases hdb : effDebug F s₂ with
+        | true => rw [handler_debug s₂ m hdb] at h₂; cases h₂; exact ⟨rfl, rfl⟩
+        | false =>
+          -- the first call's handler, run again
+          rcases glomTop_cases w s₁ m with ⟨_, d, _, hd⟩ | ⟨_, ho₁⟩
+          · rw [hd] at h₁; cases h₁
+          · rw [ho₁] at h₁
+            unfold outer at h₁
+            rw [if_pos hc] at h₁
+            have hd1 : effDebug F s₁ = false := by rw [effDebug_eq w]; exact hd₁
+            have : handler F s₂ m = handler F s₁ m := by
+              unfold handler; rw [hdb, hd1]
+            rw [this, h₁] at h₂
+            cases h₂; exact ⟨rfl, rfl⟩
+      · cases h₂; exact ⟨rfl, rfl⟩
+
+/-! ### where the fault originates -/
 
 /-- `_glom`'s `except Exception: …; raise` hands on the same exception object. -/
 theorem c04_frame_transparent (E : EvalEnv) (o : Outc) : frameG E o = o := frameG_id E o
 
-/-- **Where the fault originates.**  A fault at any depth, under any number of nested
-    tuple / dict / list / `Spec` / `First(key)` frames whose earlier siblings return, reaches `glom()`'s
-    handler as the same exception object (a StopIteration does not cross a `First(key)` frame). -/
-theorem c04_plain_frames (E : EvalEnv) (c : Ctx) (x : Sp) (o : Origin)
+/-- A fault at any depth, under any number of nested tuple / dict / list / `Spec`-like / iterator
+    frames whose earlier siblings return, reaches `glom()`'s handler as the same exception object
+    (a StopIteration does not cross an iterator step). -/
+theorem c04_plain_frames (E : EvalEnv) (c : Ctx) (x : Sp) (o : ExcObj)
     (hpre : c.PreOk E o) (hx : eval E x = .exc o) : eval E (c.plug x) = .exc o :=
   plug_propagates E c x o hpre hx
 
 /-- A `Coalesce` whose earlier alternatives were all skipped lets the fault of the next
     alternative through exactly when it does not match the Coalesce's own `skip_exc`. -/
 theorem c04_coalesce_selective (E : EvalEnv) (pre post : List Sp) (x : Sp)
-    (skip : Option (List String)) (d : Bool) (o : Origin)
-    (hpre : ∀ p ∈ pre, ∃ o', eval E p = .exc o' ∧ E.caught o' (skip.getD E.F.coalesceSkipDefault) = true)
+    (skip : Option (List String)) (d : Bool) (o : ExcObj)
+    (hpre : ∀ p ∈ pre, ∃ o', eval E p = .exc o' ∧ matchesAny o' (skip.getD E.F.coalesceSkipDefault) = true)
     (hx : eval E x = .exc o) :
     eval E (.coal (pre ++ x :: post) skip d) =
-      if E.caught o (skip.getD E.F.coalesceSkipDefault) then eval E (.coal post skip d) else .exc o := by
+      if matchesAny o (skip.getD E.F.coalesceSkipDefault) then eval E (.coal post skip d) else .exc o := by
   simp only [eval, frameG_id]
   rw [evalCoal_absorb E pre post x _ d hpre]
   simp only [evalCoal, hx]
 
-/-- The exception that reaches `glom()`'s handler is the injected object (only if the spec
-    contains the faulting callable) or one of the errors glom itself raises. -/
-theorem c04_origin_sound (E : EvalEnv) (s : Sp) :
-    match eval E s with
-    | .val => True
-    | .exc .injected => hasFault s = true
-    | .exc (.internal c) => c ∈ internalClasses := by
-  have := (eval_origin E).1 s
-  unfold OriginOk at this
-  exact this
+/-- An exception raised by a method of the TARGET (or a registered handler) inside one of glom's own
+    `try` blocks is replaced by glom's error exactly for the classes the DOCUMENTED `except` names:
+    every `Exception` around `iterate(target)` (→ TypeError) and path access (→ PathAccessError),
+    AttributeError for `T.x`, KeyError / IndexError / TypeError / ValueError for `T[…]`; every other
+    exception — and every `BaseException`-only one — passes as the same object. -/
+theorem c04_conv_selective (E : EvalEnv) (hwf : WF E.F = true) (k : Conv) :
+    eval E (.faultConv k) =
+      (if matchesAny E.inj (match k with
+          | .iter | .path => ["Exception"]
+          | .getattr => ["AttributeError"]
+          | .getitem => ["KeyError", "IndexError", "TypeError", "ValueError"])
+       then .exc (E.internal (match k with | .iter => "TypeError" | _ => "PathAccessError"))
+       else .exc E.inj) := by
+  have w := WF_parts hwf
+  simp only [eval, frameG_id]
+  cases k <;>
+    simp only [Facts.convCatch, Facts.convRaises, w.iterCatch, w.iterRaises, w.getitemCatch, w.getattrCatch,
+      w.pathCatch]
+
+/-- The exception that reaches `glom()`'s handler is the prepared object — as it is, or as the
+    handlers of nested `glom()` calls re-raised it: an instance of every class of the original, same args —
+    (only if the spec contains the fault), or one of the errors glom itself raises. -/
+theorem c04_origin_sound (E : EvalEnv) (hwf : WF E.F = true) (hinj : Good E.F E.inj)
+    (hint : ∀ c, Good E.F (E.internal c)) (s : Sp) (e : ExcObj) (h : eval E s = .exc e) :
+    (hasFault s = true ∧ (∀ c, isInst E.inj c = true → isInst e c = true) ∧ e.args = E.inj.args) ∨
+    (∃ c ∈ internalClasses E.F,
+      (∀ c', isInst (E.internal c) c' = true → isInst e c' = true) ∧ e.args = (E.internal c).args) := by
+  have := (eval_origin E (WF_parts hwf) hinj hint).1 s
+  rw [h] at this
+  rcases this with ⟨hs, hd⟩ | ⟨c, hc, hd⟩
+  · exact Or.inl ⟨hs, hd.sup hinj, hd.args⟩
+  · exact Or.inr ⟨c, hc, hd.sup (hint c), hd.args⟩
+
+/-! ### every nesting of plain / iterator / Coalesce / nested-`glom()` levels -/
+
+/-- **Selectivity at every level** (induction over the nesting): the outcome of a spec under ANY
+    list of levels is obtained level by level, innermost first; a nested `glom(…, default=, skip_exc=)`
+    level returns its default exactly when what REACHES it matches its (documented) `skip_exc`, a
+    `Coalesce` level skips exactly what matches its own `skip_exc` (documented default GlomError),
+    everything else moves on — re-raised by the handler of each `glom()` level it crosses. -/
+theorem c04_levels (E : EvalEnv) (hwf : WF E.F = true) (ls : List Level) (x : Sp) :
+    eval E (plugLevels ls x) = travel E ls (eval E x) := levels_travel E (WF_parts hwf) ls x
+
+/-- … and whatever gets through ALL of them is an instance of every class the original was an instance
+    of, with the same args — unless a Coalesce level replaced it by its CoalesceError. -/
+theorem c04_levels_faithful (E : EvalEnv) (hwf : WF E.F = true) (hint : Good E.F (E.internal "CoalesceError"))
+    (ls : List Level) (x : Sp) (e out : ExcObj) (hg : Good E.F e)
+    (hx : eval E x = .exc e) (h : eval E (plugLevels ls x) = .exc out) :
+    ((∀ c, isInst e c = true → isInst out c = true) ∧ out.args = e.args) ∨
+    isInst out "CoalesceError" = true ∨ (E.internal "CoalesceError").cls.name ≠ "CoalesceError" := by
+  rw [c04_levels E hwf, hx] at h
+  rcases travel_derives E (WF_parts hwf) hint ls e out hg h with hd | hd
+  · exact Or.inl ⟨hd.sup hg, hd.args⟩
+  · by_cases hn : (E.internal "CoalesceError").cls.name = "CoalesceError"
+    · right; left
+      have hself := isInst_self (E.internal "CoalesceError")
+      rw [hn] at hself
+      exact hd.sup hint "CoalesceError" hself
+    · exact Or.inr (Or.inr hn)
+
+/-- One nested `glom()` call: its default is returned exactly for the errors its caller selected. -/
+theorem c04_nested_selective (E : EvalEnv) (hwf : WF E.F = true) (x : Sp) (s : Settings) (e : ExcObj)
+    (ht : Tame E.F e.cls) (hx : eval E x = .exc e) :
+    (eval E (.nest x s) = .val ↔ selected s e = true) := by
+  have w := WF_parts hwf
+  have := level_pass E w (.nest s) x
+  simp only [Level.wrap] at this
+  rw [this, hx]
+  simp only [Level.pass]
+  cases hs : selected s e with
+  | true => simp
+  | false =>
+    obtain ⟨out, ho, _⟩ := outer_raised w s e ht
+    simp [ho]
 
 /-- The correspondence driver evaluates the checker against the origin computed with the
-    DOCUMENTED Coalesce default (`skip_exc=GlomError`) rather than the extracted one; for
-    well-formed facts the two coincide. -/
+    DOCUMENTED facts rather than the extracted ones; for well-formed facts the two coincide. -/
 theorem c04_reference_origin (F : Facts) (hwf : WF F = true) :
-    ({ F with coalesceSkipDefault := ["GlomError"], frameCatch := ["Exception"] } : Facts) = F := by
-  have w := WF_parts hwf
-  cases F
-  simp only [Facts.mk.injEq, true_and, and_true]
-  exact ⟨w.frameCatch.symm, w.coalesceSkip.symm⟩
+    docFacts F.wrapTypeInTry F.attrGuarded = F := (WF_eq hwf).symm
 
 /-- **Checker theorem** — the form in which the property is also evaluated on the
     implementation's observation by the correspondence driver. -/
-theorem c04_model_checks (F : Facts) (hwf : WF F = true) (s : Settings) (e : ExcObj) :
+theorem c04_model_checks (F : Facts) (hwf : WF F = true) (s : Settings) (e : ExcObj) (ht : Tame F e.cls)
+    (hlin : isInst e "GlomError" = false → e.cls.sealed = false → (wrapClass e.cls).isSome = true) :
     checkC04 s (some e) (observe (some e) (glomTop F s (.exc e))) = true ∧
     checkC04 s none (observe none (glomTop F s .val)) = true := by
   have w := WF_parts hwf
@@ -176,14 +396,28 @@ theorem c04_model_checks (F : Facts) (hwf : WF F = true) (s : Settings) (e : Exc
         simp [observe, ClassInfo.mro]
       | false =>
         have hd : effDebug F s = false := by rw [effDebug_eq w]; exact hdb
-        obtain ⟨out, h', hf, hg⟩ := handler_nodebug w s e hd
+        obtain ⟨out, h', hr⟩ := handler_nodebug w s e ht hd
         rw [h']
+        have hf := hr.faithful
         simp only [observe, Bool.not_false, Bool.true_or, Bool.and_true, Bool.false_or, hexc,
           Bool.not_true, Bool.and_eq_true, beq_iff_eq, Bool.or_eq_true, Bool.not_eq_true']
         refine ⟨⟨hf.1, hf.2⟩, ?_⟩
         by_cases hre : (isInst e "GlomError" || rebuildable e) = true
-        · right; exact hg hre
-        · left; simpa using hre
+        · by_cases hext : extensible e = true
+          · right
+            have hcond : isInst e "GlomError" = true ∨
+                (rebuildable e = true ∧ extensible e = true ∧ (wrapClass e.cls).isSome = true) := by
+              by_cases hg : isInst e "GlomError" = true
+              · exact Or.inl hg
+              · have hg' : isInst e "GlomError" = false := by simpa using hg
+                have hrb : rebuildable e = true := by simpa [hg'] using hre
+                have hsl : e.cls.sealed = false := by
+                  simp only [extensible, Bool.and_eq_true, Bool.not_eq_true'] at hext; exact hext.1
+                exact Or.inr ⟨hrb, hext, hlin hg' hsl⟩
+            obtain ⟨out', h'', hg⟩ := handler_glomerror w s e ht hd hcond
+            rw [h'] at h''; cases h''; exact hg
+          · left; right; simpa using hext
+        · left; left; simpa using hre
     · rw [if_neg hc]
       have hexc : isInst e "Exception" = false := by simpa [w.outerCatch, matchesAny] using hc
       simp [observe, hexc, ClassInfo.mro]
@@ -199,49 +433,94 @@ private def leaves (r : Res) (p : ExcObj → Bool) : Bool :=
 
 private def noSettings : Settings := ⟨none, none, none⟩
 
+private def mkExc (c : ClassInfo) (a : Args) : ExcObj := { id := 0, cls := c, args := a }
+
 /-- before 29e0d8d (`copy.copy` unguarded): a GlomError subclass whose `__init__(a, b)` stores
     `(a,)` leaves `glom()` as a TypeError — `c04_class` fails. -/
 theorem c04_class_counterexample_unguarded_copy :
     leaves (glomTop { genFacts with copyFallback := false } noSettings
-      (.exc ⟨0, G "G2" (.sig 2 (some 2) false (.pre 1)), [.int 1]⟩))
+      (.exc (mkExc (G "G2" (.sig 2 (some 2) false (.pre 1))) [.int 1])))
       (fun out => !isInst out "G2") = true := by decide +kernel
 
 /-- before b697c3c (args not compared): a constructor storing `len(args)` is re-run by
     `wrap`, `.args` changes from `(2,)` to `(1,)` — `c04_args` fails. -/
 theorem c04_args_counterexample_unchecked_args :
     leaves (glomTop { genFacts with wrapArgsCheck := false } noSettings
-      (.exc ⟨0, mkClass "L" ["Exception", "BaseException", "object"] (.sig 0 none false .len), [.int 2]⟩))
+      (.exc (mkExc (mkClass "L" ["Exception", "BaseException", "object"] (.sig 0 none false .len)) [.int 2])))
       (fun out => out.args != [.int 2]) = true := by decide +kernel
 
 /-- before 04de4c4 (`TypeMatchError.__copy__` hard-coded the class): a user subclass of
     TypeMatchError leaves `glom()` as a plain TypeMatchError — `c04_class` fails. -/
 theorem c04_class_counterexample_tme_subclass :
     leaves (glomTop { genFacts with tmeCopyFixed := true } noSettings
-      (.exc ⟨0, mkClass "TM" (genFacts.tmeClass.mro) (.sig 2 (some 2) false .tme),
-        [.str tmeFmt, .obj 1, .obj 2]⟩))
+      (.exc (mkExc (mkClass "TM" (tmeClass genFacts).mro (.sig 2 (some 2) false .tme))
+        [.str tmeFmt, .obj 1, .obj 2])))
       (fun out => !isInst out "TM") = true := by decide +kernel
 
 /-- before a8fa0d5 (`if err:`): an exception whose truth value is False leaves `glom()` as
     UnboundLocalError — `c04_class` fails. -/
 theorem c04_class_counterexample_falsy :
     leaves (glomTop { genFacts with errTestTruthy := true } noSettings
-      (.exc ⟨0, G "FalsyG" (.sig 0 none false .all) true, [.int 1]⟩))
+      (.exc (mkExc (G "FalsyG" (.sig 0 none false .all) true) [.int 1])))
       (fun out => !isInst out "FalsyG") = true := by decide +kernel
+
+/-! ### the hypothesis `Tame` is forced: on the shape /repo HAS (the `type(…)` call of `GlomError.wrap`
+    outside its `try`, `_set_wrapped` / `_finalize` unguarded) three kinds of classes break `c04_class` -/
+
+/-- a class that refuses to be subclassed (`__init_subclass__` / a metaclass raises): the TypeError of
+    the `type(…)` call leaves `glom()` — `c04_class` fails. -/
+theorem c04_class_counterexample_sealed :
+    leaves (glomTop { genFacts with wrapTypeInTry := false } noSettings
+      (.exc (mkExc (mkClass "Final" ["Exception", "BaseException", "object"] (.sig 0 none false .all)
+        false .args true) [.int 1])))
+      (fun out => !isInst out "Final") = true := by decide +kernel
+
+/-- a GlomError subclass whose `__setattr__` raises (a frozen dataclass): the AttributeError of
+    `err._set_wrapped(e)` leaves `glom()` — `c04_class` fails. -/
+theorem c04_class_counterexample_frozen :
+    leaves (glomTop { genFacts with attrGuarded := false } noSettings
+      (.exc (mkExc (mkClass "Fz" ["GlomError", "Exception", "BaseException", "object"] (.sig 0 none false .all)
+        false .args false true) [.int 1])))
+      (fun out => !isInst out "Fz") = true := by decide +kernel
+
+/-- a GlomError subclass whose `__copy__` returns an object of another class with the same args: the
+    copy is raised — `c04_class` fails (whatever the guards). -/
+theorem c04_class_counterexample_foreign_copy :
+    leaves (glomTop genFacts noSettings
+      (.exc (mkExc (mkClass "Cp" ["GlomError", "Exception", "BaseException", "object"] (.sig 0 none false .all)
+        false .foreign) [.int 1])))
+      (fun out => !isInst out "Cp") = true := by decide +kernel
 
 /-! ### non-vacuity: concrete inputs meet every hypothesis -/
 
 private def keyErr : ExcObj :=
-  ⟨0, repoClass "KeyError" (.sig 0 none false .all), [.str "k"]⟩
+  mkExc (repoClass "KeyError" (.sig 0 none false .all)) [.str "k"]
 private def userErr : ExcObj :=   -- class U(Exception): def __init__(self, a, b): super().__init__(a)
-  ⟨0, mkClass "U" ["Exception", "BaseException", "object"] (.sig 2 (some 2) false (.pre 1)), [.int 1]⟩
+  mkExc (mkClass "U" ["Exception", "BaseException", "object"] (.sig 2 (some 2) false (.pre 1))) [.int 1]
 private def kbd : ExcObj :=
-  ⟨0, mkClass "KI" ["KeyboardInterrupt", "BaseException", "object"] (.sig 0 none false .all), [.int 1]⟩
-private def exE : EvalEnv := ⟨genFacts, keyErr.cls.mro⟩
+  mkExc (mkClass "KI" ["KeyboardInterrupt", "BaseException", "object"] (.sig 0 none false .all)) [.int 1]
+private def pathErr : ExcObj :=
+  { id := 1000, cls := repoClass "PathAccessError" (.sig 3 (some 3) false .all), args := [.obj 1, .obj 2, .int 0] }
+private def exE : EvalEnv :=
+  ⟨genFacts, keyErr, fun c => { id := 1000, cls := repoClass c (.sig 0 none false .all), args := [] }⟩
 
+/-- decidable view of an outcome: identity, class name, args -/
+private def tag : Outc → Option (Nat × String × Args)
+  | .val => none
+  | .exc e => some (e.id, e.cls.name, e.args)
+
+-- `Tame`: every class whose wrapper class Python can create, without a hostile `__copy__`
+example : Tame genFacts keyErr.cls :=
+  ⟨Or.inr (Or.inl (by decide +kernel)), fun h => by revert h; decide +kernel, by decide⟩
+example : Tame genFacts pathErr.cls :=
+  ⟨Or.inr (Or.inr (by decide +kernel)), fun _ => Or.inr rfl, by decide⟩
+example : ClassOK keyErr.cls := fun h => by revert h; decide +kernel
 -- `c04_glomerror`: a rebuildable Exception subclass, debug off → leaves as GlomError.wrap(KeyError)
-example : isInst keyErr "Exception" = true ∧ (isInst keyErr "GlomError" || rebuildable keyErr) = true ∧
+example : isInst keyErr "Exception" = true ∧ rebuildable keyErr = true ∧ extensible keyErr = true ∧
+    (wrapClass keyErr.cls).isSome = true ∧
     leaves (glomTop genFacts noSettings (.exc keyErr))
-      (fun out => out.cls.name == "GlomError.wrap(KeyError)" && isInst out "KeyError" && isInst out "GlomError") = true := by
+      (fun out => out.cls.name == "GlomError.wrap(KeyError)" && isInst out "KeyError" && isInst out "LookupError" &&
+        isInst out "GlomError" && out.wrapped == some 0) = true := by
   decide +kernel
 -- without `rebuildable`: class U cannot be rebuilt from `(1,)`; the original leaves, not a GlomError
 example : rebuildable userErr = false ∧
@@ -267,24 +546,67 @@ example : selected ⟨none, none, some true⟩ keyErr = false ∧ isInst kbd "Ex
 -- without `selected = false`: skip_exc naming the KeyboardInterrupt subclass replaces it by the default
 example : (match glomTop genFacts ⟨some 7, some ["KI"], some true⟩ (.exc kbd) with
     | .dflt (.given 7) => true | _ => false) = true := by decide +kernel
--- `c04_plain_frames`: a fault three frames deep, after siblings that return
-example : (Ctx.tup [.ok] (.dct [.ok, .tup []] (.lst (.frame (.first .hole))) [.fault]) [.badPath]).PreOk exE .injected := by
-  simp only [Ctx.PreOk, and_true]
+-- `c04_wrapper_mro`: class C(A, B) with A(Exception), B(BaseException) — GlomError goes before Exception,
+-- B stays between Exception and BaseException; a mix-in after BaseException stays there
+example : wrapMro ["C", "A", "Exception", "B", "BaseException", "Y", "object"] =
+    some ["C", "A", "GlomError", "Exception", "B", "BaseException", "Y", "object"] := by decide +kernel
+-- the hypotheses of `c04_wrapper_mro` are forced: an MRO that has GlomError's bases in another order
+-- (`object` before `BaseException`) has no consistent linearisation with GlomError
+example : wrapMro ["C", "Exception", "object", "BaseException"] = none := by decide +kernel
+-- `c04_wrap_of_wrapped`: the wrapper of KeyError's wrapper
+example : wrapMro ["GlomError.wrap(KeyError)", "KeyError", "LookupError", "GlomError", "Exception", "BaseException",
+    "object"] = some ["GlomError.wrap(KeyError)", "KeyError", "LookupError", "GlomError", "Exception", "BaseException",
+    "object"] := by decide +kernel
+-- the modelled C3 on a diamond and on an inconsistent hierarchy (Python: "Cannot create a consistent MRO")
+example : linearize "D" [["B", "A", "object"], ["C", "A", "object"]] = some ["D", "B", "C", "A", "object"] ∧
+    linearize "X" [["A", "object"], ["B", "A", "object"]] = none := by decide +kernel
+-- `c04_selected_monotone` is not an equivalence: the wrapper of a KeyError matches `skip_exc=GlomError`, the
+-- KeyError did not
+example : selected ⟨some 7, none, none⟩ keyErr = false ∧
+    leaves (glomTop genFacts noSettings (.exc keyErr)) (fun out => selected ⟨some 7, none, none⟩ out) = true := by
   decide +kernel
-example : eval exE ((Ctx.tup [.ok] (.dct [.ok, .tup []] (.lst (.frame (.first .hole))) [.fault]) [.badPath]).plug .fault)
-    = .exc .injected := by decide +kernel
+-- `c04_wrap_idempotent` / `c04_rewrap_stable`: two nested glom() calls give the class of one
+example : tag (eval exE (.nest (.nest .fault noSettings) noSettings)) =
+    some (2, "GlomError.wrap(KeyError)", [.str "k"]) ∧
+    tag (eval exE (.nest .fault noSettings)) = some (1, "GlomError.wrap(KeyError)", [.str "k"]) := by decide +kernel
+-- … without `debug off` in the first call: it re-raises the KeyError itself, the second call wraps it
+example : tag (eval exE (.nest (.nest .fault ⟨none, none, some true⟩) noSettings)) =
+    some (1, "GlomError.wrap(KeyError)", [.str "k"]) ∧
+    tag (eval exE (.nest .fault ⟨none, none, some true⟩)) = some (0, "KeyError", [.str "k"]) := by decide +kernel
+-- `c04_plain_frames`: a fault three frames deep, after siblings that return
+example : (Ctx.tup [.ok] (.dct [.ok, .tup []] (.lst (.frame (.first .hole))) [.fault]) [.badPath]).PreOk exE keyErr := by
+  simp only [Ctx.PreOk, and_true, List.mem_cons, List.not_mem_nil, or_false, forall_eq_or_imp, forall_eq]
+  refine ⟨rfl, ⟨rfl, rfl⟩, ?_⟩
+  decide +kernel
+example : tag (eval exE ((Ctx.tup [.ok] (.dct [.ok, .tup []] (.lst (.frame (.first .hole))) [.fault]) [.badPath]).plug .fault))
+    = some (0, "KeyError", [.str "k"]) := by decide +kernel
 -- without `PreOk`: an earlier sibling fails first, with its own exception
-example : eval exE ((Ctx.tup [.badPath] .hole []).plug .fault) = .exc (.internal "PathAccessError") := by
+example : tag (eval exE ((Ctx.tup [.badPath] .hole []).plug .fault)) = some (1000, "PathAccessError", []) := by
   decide +kernel
 -- without the StopIteration clause of `PreOk`: the key of `First` raising StopIteration is taken by
 -- `next(filter(key, …))` for the end of the iteration; nothing is raised at all
-example : eval ⟨genFacts, ["StopIteration", "Exception", "BaseException", "object"]⟩ ((Ctx.first .hole).plug .fault) = .val := by
+example : tag (eval { exE with inj := mkExc (repoClass "StopIteration" (.sig 0 none false .all)) [] }
+    ((Ctx.first .hole).plug .fault)) = none := by
   decide +kernel
 -- `c04_coalesce_selective`: KeyError passes a default Coalesce (skip_exc=GlomError), is absorbed by
 -- skip_exc=LookupError; an absorbed PathAccessError precedes it
-example : eval exE (.coal ([.badPath] ++ .fault :: [.ok]) none false) = .exc .injected ∧
-    eval exE (.coal ([.badPath] ++ .fault :: []) (some ["LookupError"]) false) = .exc (.internal "CoalesceError") ∧
-    eval exE (.coal ([.badPath] ++ .fault :: [.ok]) (some ["LookupError"]) false) = .val := by
+example : tag (eval exE (.coal ([.badPath] ++ .fault :: [.ok]) none false)) = some (0, "KeyError", [.str "k"]) ∧
+    tag (eval exE (.coal ([.badPath] ++ .fault :: []) (some ["LookupError"]) false)) = some (1000, "CoalesceError", []) ∧
+    tag (eval exE (.coal ([.badPath] ++ .fault :: [.ok]) (some ["LookupError"]) false)) = none := by
+  decide +kernel
+-- `c04_conv_selective`: a KeyError of `__getitem__` becomes PathAccessError, of `__getattr__` passes,
+-- of `__iter__` becomes TypeError; a KeyboardInterrupt passes everywhere
+example : tag (eval exE (.faultConv .getitem)) = some (1000, "PathAccessError", []) ∧
+    tag (eval exE (.faultConv .getattr)) = some (0, "KeyError", [.str "k"]) ∧
+    tag (eval exE (.faultConv .iter)) = some (1000, "TypeError", []) ∧
+    tag (eval { exE with inj := kbd } (.faultConv .path)) = some (0, "KI", [.int 1]) := by decide +kernel
+-- `c04_levels`: Coalesce(skip_exc=LookupError) inside glom(default=…) inside a plain frame: the KeyError is
+-- skipped by the Coalesce, its CoalesceError (a GlomError) is replaced by the nested call's default;
+-- without the Coalesce the KeyError passes the nested call (wrapped: now ALSO a GlomError) and is replaced
+-- by the default of a second, outer nested call
+example : tag (eval exE (plugLevels [.plain, .nest ⟨some 7, none, none⟩, .coal (some ["LookupError"]) false] .fault)) = none ∧
+    tag (eval exE (plugLevels [.nest ⟨some 7, none, none⟩] .fault)) = some (1, "GlomError.wrap(KeyError)", [.str "k"]) ∧
+    tag (eval exE (plugLevels [.nest ⟨some 7, none, none⟩, .nest ⟨some 7, none, none⟩] .fault)) = none := by
   decide +kernel
 
 end Glom.Props.C04
